@@ -26,6 +26,7 @@ verus! {
 //@include spec/evalctx_types.rs
 //@include spec/strmap.rs
 //@include spec/rename.rs
+//@include spec/canon.rs
 //@include spec/evalctx.rs
 //@include spec/size.rs
 //@include spec/api.rs
